@@ -850,7 +850,10 @@ def Array(
             try:
                 stream = _as_stream(buffer)
                 if _length is None:
-                    return cls._decode_all(stream)
+                    _val = cls._decode_all(stream)
+                    if issubclass(cls.element_type, BitArrayType):
+                        return list(chain.from_iterable(_val))
+                    return _val
 
                 if isinstance(_length, int):
                     _len = _length
